@@ -243,6 +243,53 @@ def run(ctx):
                 ctx.violation('protocol %d: %s' % (v, bad), {'version': v, 'compression': comp, 'end': end,
                                                             'events': evs[:30], 'n_events': len(evs)},
                               key={'version': v, 'comp': comp, 'events': evs[:50], 'end': end})
+    # ---- a retry loop on ONE Connection: the first attempt fails (server not up yet: drops the socket, or refuses with a
+    # login disconnect), the application connects again (from the exception handler, or later from its own thread); in
+    # the second session the server's play-state disconnect must close the connection and run the exit callback once
+    for trial in range(ctx.scale(16, 120)):
+        v = rng.choice(list(rp.RELEASES))
+        I = ids_for(v)
+        first = [[('close',)], [('disconnect', '{"text":"starting"}')], [('compress', 64), ('close',)]][trial % 3]
+        from_handler = trial // 3 % 2 == 0
+        kas = [rng.choice(KA_IDS) for _ in range(rng.randrange(0, 4))]
+        second = [('success',)] + [('raw', I['ka_cb'], rc.be(k, 8) if I['ka_wide'] else rc.varint(k)) for k in kas] \
+            + [('raw', I['disc'], rc.string('{"text":"bye"}'))] + ([('close',)] if trial % 2 else [])
+        cfgs = [{'version': v, 'script': first}, {'version': v, 'script': second}]
+        made, calls = [], []
+
+        def factory(sock, cfgs=cfgs, made=made):
+            srv = RefServer(sock, cfgs[min(len(made), 1)])
+            made.append(srv)
+            return srv
+        with simnet.Net(factory) as net:
+            def on_exc(e, i):
+                calls.append(('exc', type(e).__name__))
+                if from_handler and len([c for c in calls if c[0] == 'exc']) == 1:
+                    conn.connect()
+            conn = C.Connection('h', 1, username='u', allowed_versions={v}, handle_exception=on_exc,
+                                handle_exit=lambda: calls.append(('exit',)))
+            conn.connect()
+            net.run_threads()
+            if not from_handler:
+                conn.connect()
+                net.run_threads()
+            closed = len(net.sockets) == 2 and net.sockets[1].closed_by_client
+        ka_sent = []
+        if len(made) == 2:
+            for st, pid, payload, _e, _c in made[1].frames:
+                if st == 'play' and pid == I['ka_sb']:
+                    ka_sent.append(int.from_bytes(payload, 'big') if I['ka_wide'] else rc.read_varint(payload, 0)[0])
+        ctx.case(('retry-then-disconnect', v, trial % 3, from_handler, tuple(kas)))
+        ctx.count('retry-then-disconnect')
+        nexc = len([c for c in calls if c[0] == 'exc'])
+        if len(made) != 2 or nexc != 1 or calls.count(('exit',)) != 1 or not closed or ka_sent != kas[:len(ka_sent)] \
+                or (trial % 2 == 0 and ka_sent != kas):
+            ctx.violation('protocol %d: first attempt fails (%s), the application connects again (%s); second session: %d keep-alives then a '
+                          'play disconnect: connections=%d, errors reported=%d, exit callback ran %d time(s), closed=%s, keep-alive replies %r'
+                          % (v, first[-1][0], 'from the exception handler' if from_handler else 'afterwards', len(kas), len(made), nexc,
+                             calls.count(('exit',)), closed, ka_sent),
+                          {'version': v, 'first': repr(first), 'from_handler': from_handler, 'calls': repr(calls)[:200]},
+                          key={'kind': 'retry-then-disconnect', 'first': trial % 3, 'from_handler': from_handler})
     for line, mo, g in zip(lines, ctx.driver.ask(lines), impl):
         if mo != g:
             ctx.disagree('play loop', line[:300], mo[:300], g[:300])
